@@ -43,16 +43,38 @@ def load_base() -> list[dict]:
     return items
 
 
+MAX_DERIVED_STEPS = 3_000_000
+
+
+def _costs() -> dict:
+    path = os.path.join(HERE, "workload", "cost.json")
+    return json.load(open(path, encoding="utf-8")) if os.path.exists(path) else {}
+
+
+def cost_of(pid: str, costs: dict | None = None) -> int:
+    """measured ngo line events (max over `default` and `all`, pristine world; tools/measure_cost.py)"""
+    costs = _costs() if costs is None else costs
+    return max(costs.get(pid + ".d", 0), costs.get(pid + ".a", 0))
+
+
+def _derived(name: str) -> list[dict]:
+    """derived programs whose measured cost stays 15x below the step cap (a slow but terminating call must
+    never be mistaken for divergence); decided by committed data, never by timing at check time"""
+    path = os.path.join(HERE, "workload", name)
+    if not os.path.exists(path):
+        return []
+    costs = _costs()
+    return [b for b in json.load(open(path, encoding="utf-8")) if cost_of(b["id"], costs) <= MAX_DERIVED_STEPS]
+
+
 def load_wide() -> list[dict]:
     """widened variants (tools/build_wide.py): every atom argument doubled, all safe"""
-    path = os.path.join(HERE, "workload", "wide.json")
-    return json.load(open(path, encoding="utf-8")) if os.path.exists(path) else []
+    return _derived("wide.json")
 
 
 def load_twin() -> list[dict]:
     """twin-joined variants (tools/build_twin.py): program + renamed copy + statements joining both bodies"""
-    path = os.path.join(HERE, "workload", "twin.json")
-    return json.load(open(path, encoding="utf-8")) if os.path.exists(path) else []
+    return _derived("twin.json")
 
 
 def load_all() -> list[dict]:
